@@ -62,6 +62,9 @@ func (r *rewriter) name(prefix string) *ast.Ident {
 	return ast.NewIdent(fmt.Sprintf("vs%s%d", prefix, r.tmp))
 }
 
+var fsCalls = map[string]bool{"Create": true, "Open": true, "OpenFile": true, "Rename": true, "Remove": true, "RemoveAll": true, "Mkdir": true, "MkdirAll": true,
+	"WriteFile": true, "ReadFile": true, "Stat": true, "Lstat": true, "Symlink": true, "Link": true, "Truncate": true, "Chmod": true, "ReadDir": true, "CreateTemp": true, "MkdirTemp": true, "TempFile": true, "TempDir": true}
+
 func hook(name string, args ...ast.Expr) *ast.CallExpr {
 	return &ast.CallExpr{Fun: &ast.SelectorExpr{X: ast.NewIdent("vsched"), Sel: ast.NewIdent(name)}, Args: args}
 }
@@ -812,6 +815,22 @@ func (r *rewriter) exprs(root ast.Node) {
 						r.stats["sleep"]++
 						n.Fun = &ast.SelectorExpr{X: ast.NewIdent("vsched"), Sel: ast.NewIdent("Sleep")}
 					}
+				}
+			}
+			// file-system operations are visible operations: a scheduling point before os.Create/Rename/... and
+			// before (*os.File).Close/Sync (the first argument resp. the receiver is passed through vsched.FS)
+			if se, ok := n.Fun.(*ast.SelectorExpr); ok {
+				if id, ok := se.X.(*ast.Ident); ok {
+					if pn, ok := r.info.Uses[id].(*types.PkgName); ok && (pn.Imported().Path() == "os" || pn.Imported().Path() == "io/ioutil") && fsCalls[se.Sel.Name] && len(n.Args) >= 1 {
+						r.usedHooks = true
+						r.stats["fs-point"]++
+						n.Args[0] = hook("FS", n.Args[0], r.site(n.Pos(), pn.Imported().Path()+"."+se.Sel.Name))
+					}
+				}
+				if t := r.info.TypeOf(se.X); t != nil && t.String() == "*os.File" && (se.Sel.Name == "Close" || se.Sel.Name == "Sync") {
+					r.usedHooks = true
+					r.stats["fs-point"]++
+					se.X = hook("FS", se.X, r.site(n.Pos(), "(*os.File)."+se.Sel.Name))
 				}
 			}
 			// make(chan T, N) with a literal N >= 2
